@@ -174,7 +174,7 @@ func main() {
 		for _, tc := range handWritten() {
 			emit(tc)
 		}
-		randomStructured(rng, seeds, r.N(20000, 600000), emit)
+		randomStructured(rng, seeds, r.N(20000, 3000000), emit)
 		c.Count("seed_files", int64(len(seeds)))
 
 		nWorkers := 12
